@@ -126,6 +126,57 @@ fn base128_rejects() {
     }
 }
 
+// ---- table directory entry (WOFF2 section 4.1) -----------------------------------------------
+// known-tag table exactly as printed in the WOFF2 specification ("Known Table Tags", flag values 0..62)
+const SPEC_KNOWN_TAGS: [&[u8; 4]; 63] = [
+    b"cmap", b"head", b"hhea", b"hmtx", b"maxp", b"name", b"OS/2", b"post", b"cvt ", b"fpgm", b"glyf", b"loca", b"prep", b"CFF ", b"VORG", b"EBDT",
+    b"EBLC", b"gasp", b"hdmx", b"kern", b"LTSH", b"PCLT", b"VDMX", b"vhea", b"vmtx", b"BASE", b"GDEF", b"GPOS", b"GSUB", b"EBSC", b"JSTF", b"MATH",
+    b"CBDT", b"CBLC", b"COLR", b"CPAL", b"SVG ", b"sbix", b"acnt", b"avar", b"bdat", b"bloc", b"bsln", b"cvar", b"fdsc", b"feat", b"fmtx", b"fvar",
+    b"gvar", b"hsty", b"just", b"lcar", b"mort", b"morx", b"opbd", b"prop", b"trak", b"Zapf", b"Silf", b"Glat", b"Gloc", b"Feat", b"Sill",
+];
+fn tag_of(t: &[u8; 4]) -> u32 { ((t[0] as u32) << 24) | ((t[1] as u32) << 16) | ((t[2] as u32) << 8) | t[3] as u32 }
+
+//@ harness directory_entry kind=complete fns=TableDirectoryEntry::read_dep,U32Base128::read,TableDirectoryEntry::length timeout=900
+#[kani::proof]
+#[kani::unwind(7)]
+fn directory_entry() {
+    // every flag byte, every explicit tag, every pair of UIntBase128 values (canonical encodings of all u32):
+    //   tag = known tag (flags & 0x3F) < 63, else the 4 bytes that follow; origLength next;
+    //   transformLength is present iff the table is transformed: glyf/loca with version != 3, any other table with version != 0
+    let flags: u8 = kani::any();
+    let explicit: [u8; 4] = kani::any();
+    let orig: u32 = kani::any();
+    let tlen: u32 = kani::any();
+    let offset: usize = kani::any();
+    let mut buf = [0u8; 16];
+    let mut n = 0;
+    buf[n] = flags; n += 1;
+    let idx = (flags & 0x3F) as usize;
+    let want_tag = if idx == 63 { buf[n..n + 4].copy_from_slice(&explicit); n += 4; tag_of(&explicit) } else { tag_of(SPEC_KNOWN_TAGS[idx]) };
+    let mut e = [0u8; 5];
+    let k = enc128(orig, &mut e);
+    let mut i = 0; while i < k { buf[n + i] = e[i]; i += 1; } n += k;
+    let k2 = enc128(tlen, &mut e);
+    let mut i = 0; while i < k2 { buf[n + i] = e[i]; i += 1; }
+    let with_tlen = n + k2;
+    let version = flags >> 6;
+    let is_glyf_loca = want_tag == tag_of(b"glyf") || want_tag == tag_of(b"loca");
+    let transformed = if is_glyf_loca { version != 3 } else { version != 0 };
+    let mut ctxt = ReadScope::new(&buf[..with_tlen]).ctxt();
+    let r = ctxt.read_dep::<TableDirectoryEntry>(offset);
+    match r {
+        Ok(entry) => {
+            assert!(entry.tag == want_tag, "tag: known-table index or the explicit 4 bytes");
+            assert!(entry.offset == offset);
+            assert!(entry.orig_length == orig, "origLength");
+            assert!(entry.transform_length == if transformed { Some(tlen) } else { None }, "transformLength present iff the table is transformed");
+            assert!(consumed(&ctxt, with_tlen) == if transformed { with_tlen } else { n }, "bytes consumed");
+            assert!(entry.length() == if transformed { tlen as usize } else { orig as usize }, "stored length = transformLength when present");
+        }
+        Err(_) => assert!(false, "a well-formed entry is never refused"),
+    }
+}
+
 // ---- bbox bitmap ---------------------------------------------------------------------------
 //@ harness bitslice_get kind=bounded:4bytes fns=BitSlice::get,BitSlice::len
 #[kani::proof]
